@@ -82,6 +82,13 @@ class Unreadable(Exception):
     pass
 
 
+# A Count() operand need not be an accumulator: the number of elements of a collection fetched from the event store
+# can be read off the collection.  The C++ type of such an operand is the type of the EXPRESSION it is read from -
+# `c->size()` is a std::size_t whatever the translator declares -, converted to int only where the text says so.
+RETRIEVE = re.compile(r'^ANA_CHECK \(evtStore\(\)->retrieve\((\w+), "(\w+)"\)\);$')
+SIZE_USE = r"(?:\(\*(?P<v1>\w+)\)\.size\(\)|(?P<v2>\w+)(?:->|\.)size\(\))"
+SIZE_RE = re.compile(r"(?P<cast>static_cast<int>\()?" + SIZE_USE + r"(?(cast)\))")
+
 SUM_UPD = re.compile(r"^(\w+) = \((\w+)\+(\w+)->(\w+)\(\)\);$")
 
 
@@ -118,9 +125,40 @@ def read_query(gen: Dict[str, str], forms: List[Dict[str, Any]]) -> List[Dict[st
         m = SCALAR_DECL.match(l)
         if m:
             decls.append((m.group(1), m.group(2), m.group(3)))
+    # collections fetched from the event store: variable -> bank
+    bank_of: Dict[str, str] = {}
+    fetched: Dict[str, str] = {}
+    for l in body:
+        m = RETRIEVE.match(l)
+        if m:
+            fetched[m.group(1)] = m.group(2)
+            continue
+        m = ASSIGN.match(l)
+        if m and m.group(2) in fetched:
+            bank_of[m.group(1)] = fetched[m.group(2)]
+    sized: Dict[str, str] = {}  # canonical count name -> C++ type of the expression it is read from
+
+    def size_sub(s: str) -> str:
+        def f(m):
+            bank = bank_of.get(m.group("v1") or m.group("v2"))
+            if bank is None or bank not in X.CNT_SLOTS:
+                return m.group(0)
+            cname, _ = X.agg_canon(["Count", bank])
+            ty = "int" if m.group("cast") else "size_t"
+            if sized.setdefault(cname, ty) != ty:
+                raise Unreadable(f"the size of {bank} is used both converted to int and unconverted")
+            return cname
+
+        return SIZE_RE.sub(f, s)
+
+    for l in body:
+        if ASSIGN.match(l) or PUSH.match(l) or IFLINE.match(l):
+            size_sub(l)
     # aggregate operands (Count of a bank, Sum of an accessor): the k-th accumulator declared is the k-th aggregate
-    # of the source in evaluation order; its declared type is READ here, never assumed
-    aggs = [a for f in forms for a in X.aggs_of(f)]
+    # of the source in evaluation order (those read off a collection's size aside); its declared type is READ here,
+    # never assumed
+    all_aggs = [a for f in forms for a in X.aggs_of(f)]
+    aggs = [a for a in all_aggs if X.agg_canon(a)[0] not in sized]
     acc_decls = [d for d in decls if d[2] is not None]
     ifs = [d for d in decls if d[2] is None]
     form0 = forms[0]
@@ -131,6 +169,12 @@ def read_query(gen: Dict[str, str], forms: List[Dict[str, Any]]) -> List[Dict[st
     leaf_decls: List[str] = []
     leaf_types: Dict[str, str] = {}
     leaf_names = set()
+    for a in all_aggs:
+        cname, _ = X.agg_canon(a)
+        if cname in sized and cname not in leaf_types:
+            leaf_types[cname] = sized[cname]
+            # converted to int on the spot it is the model's int operand (theorem size_cast_int)
+            leaf_decls.append(f"int {cname} (0);" if sized[cname] == "int" else f'size_t {cname} = size of "{a[1]}";')
     for a, (ty, name, init) in zip(aggs, acc_decls):
         cname, _ = X.agg_canon(a)
         upd = [l for l in body if l.startswith(name + " = ")]
@@ -158,7 +202,7 @@ def read_query(gen: Dict[str, str], forms: List[Dict[str, Any]]) -> List[Dict[st
         ren[n] = "COL" if single else f"COL{k}"
 
     def canon(s: str) -> str:
-        return re.sub(r"\b\w+\b", lambda m: ren.get(m.group(0), m.group(0)), s)
+        return re.sub(r"\b\w+\b", lambda m: ren.get(m.group(0), m.group(0)), size_sub(s))
 
     kept: List[str] = []
     fills: Dict[str, str] = {}
